@@ -6,6 +6,7 @@ import (
 	"strings"
 	"sync"
 	"testing"
+	"time"
 
 	erpc "github.com/henrylee2cn/erpc/v6"
 	"github.com/henrylee2cn/erpc/v6/socket"
@@ -47,6 +48,7 @@ type recPlugin struct {
 	enabled map[string]bool
 	veto    string // stage at which this plugin vetoes ("" = never)
 	vetoPad int    // > 0: the veto status carries a cause of that many bytes
+	linger  string
 }
 
 func (p *recPlugin) Name() string { return p.name }
@@ -56,6 +58,9 @@ func (p *recPlugin) at(stage string) *erpc.Status {
 		return nil
 	}
 	p.log.add(p.name + ":" + stage)
+	if p.linger == stage {
+		time.Sleep(300 * time.Microsecond)
+	}
 	if p.veto == stage {
 		if p.vetoPad > 0 {
 			return erpc.NewStatus(880, "veto by "+p.name, strings.Repeat("V", p.vetoPad))
@@ -93,6 +98,7 @@ type plugSpec struct {
 	Late    bool   // attached after routes were registered (global only)
 	LateHow string // left | right
 	VetoPad int    // > 0: the veto status is that many bytes larger than the configured message size limit allows
+	Linger  string // a stage at which this plugin's hook takes a while (300 us) after it was entered: what happens meanwhile elsewhere must not overtake the stages behind it
 }
 
 type c09Case struct {
@@ -169,6 +175,9 @@ func genPlug(t *rapid.T, name string, where string, canVeto bool) plugSpec {
 	p.Stages = rapid.SliceOfNDistinct(rapid.SampledFrom(allStages), n, n, rapid.ID[string]).Draw(t, "stages")
 	if canVeto && rapid.IntRange(0, 3).Draw(t, "doesveto") == 0 {
 		p.Veto = rapid.SampledFrom(p.Stages).Draw(t, "veto")
+	}
+	if rapid.IntRange(0, 3).Draw(t, "lingers") == 0 {
+		p.Linger = rapid.SampledFrom(p.Stages).Draw(t, "linger")
 	}
 	return p
 }
@@ -455,7 +464,7 @@ func (c c09Case) expect(m c09Msg) c09Expect {
 }
 
 func mkRec(spec plugSpec, log *hookLog) *recPlugin {
-	p := &recPlugin{name: spec.Name, log: log, enabled: map[string]bool{}, veto: spec.Veto, vetoPad: spec.VetoPad}
+	p := &recPlugin{name: spec.Name, log: log, enabled: map[string]bool{}, veto: spec.Veto, vetoPad: spec.VetoPad, linger: spec.Linger}
 	for _, s := range spec.Stages {
 		p.enabled[s] = true
 	}
